@@ -5,6 +5,7 @@
 import BespokeVerif.Model.Layout
 import BespokeVerif.Lemmas.Layout
 import BespokeVerif.Lemmas.StmtSize
+import BespokeVerif.Lemmas.ImageFast
 namespace BV.C02
 open BV
 
@@ -72,6 +73,14 @@ theorem reserved_eq_emitted (cfg : Cfg) (zs : Zones) (L L₂ : Labels) (ln : Lin
     (bs.length : Int) = p.size := by
   obtain ⟨z₀, addr, size, _, hp, _, _, rfl⟩ := firstPassStep_ok h
   exact lineBytes_length hp hb hbyte hpos
+
+/-- … and for the whole run: every byte line of every program the model assembles (source lines of
+    any kind, macro invocations, predefined data blocks) emits exactly the bytes that were reserved
+    for it when addresses were assigned - none when a fill was given a negative count -/
+theorem every_line_reserved_eq_emitted (cfg : Cfg) (files : List (List Stmt)) (es : List Emitted) (L : Labels)
+    (h : assembleLines cfg files = .ok (es, L)) (e : Emitted) (he : e ∈ es) (hb : e.isByte = true) :
+    (e.bytes.length : Int) = if 0 ≤ e.size then e.size else 0 :=
+  assembleLines_wf cfg files es L h e he hb
 
 /-- the same for a bit-packed ISA instruction statement (any operand types, field widths, alignment
     and byte order): the bytes finally emitted — with the final label values, at the final address —
